@@ -92,4 +92,19 @@ VH_NOINSTR static void vh_rt_run(int kthreads, vh_op_fn fn, size_t stack) {
   vr_set_done();
   (void)kthreads;
 }
+
+/* variant: the main fiber waits with fiber_join (it parks, so kernel thread 0 runs its
+ * maintenance loop, which polls events and steals) instead of yield-polling */
+VH_NOINSTR static void vh_rt_run_join(int kthreads, vh_op_fn fn, size_t stack) {
+  vh_do_op = fn;
+  for (int t = 0; t < vh_script.nfibers; t++) {
+    vh_fibers[t] = fiber_create_no_sched(stack ? stack : 65536, vh_fiber_main, (void*)(long)t);
+    vh_reg_fiber(vh_fibers[t], t);
+  }
+  vr_note("spawn %d", vh_script.nfibers);
+  for (int t = 0; t < vh_script.nfibers; t++) fiber_manager_schedule(fiber_manager_get(), vh_fibers[t]);
+  for (int t = 0; t < vh_script.nfibers; t++) fiber_join(vh_fibers[t], NULL);
+  vr_set_done();
+  (void)kthreads;
+}
 #endif
